@@ -1,6 +1,296 @@
+(* C11 — Ragged Vector keeps its structural invariants under any operation history.
+   This file contains ONLY the property theorems (closed by `exact`), their assumption reports
+   and non-vacuity examples.  Model: model/C11_Model.v (vector.py / validators.py WITH
+   fixes/C11-*.diff applied), nested lists: lib/C11_Heap.v, proofs: proof/C11_Proofs*.v.
+
+   Vocabulary (all defined in the model / heap library, nothing hidden in the proofs):
+     run ops init          the state after the operation history `ops` (ANY list of `op`:
+                           from_shape, from_data, get_data, set_data, __getitem__, __setitem__,
+                           field arithmetic, field flatten, set_flattened, flatten, add_fields,
+                           remove_fields, copy — valid or not, errors are values)
+     heap s                the numpy arrays alive (id = position); cell = {ncols; rows}
+     vecs s                the live Vector objects {vshape; vfields; vunits; vdata; vmeta}
+     shaped sh t           the nested lists `t` have exactly the nesting given by `sh`
+     leaves t              the cells in traversal (row-major) order; None = unset cell
+     tget t p              the cell at address p;   ndindex sh = all addresses in np.ndindex order
+     reach v               the array ids reachable from v;   vmeta v = identity of its metadata dict
+     cell_col k h x / cell_rows h x   column k / all rows of the array behind the cell x ([] if unset) *)
 From QV.lib Require Import Prelude C11_Heap.
 From QV.model Require Import C11_Model.
-From QV.proof Require Import C11_Proofs.
-Theorem C11_vec_inv_reachable : forall ops, SInv (run ops init).
+From QV.proof Require Import C11_Proofs C11_Proofs_Hist.
+From Coq Require Import QArith.
+Local Close Scope Q_scope.
+
+(* ------------------------------------------------------------------------------------------
+   1. After ANY operation history: every array is rectangular; every live vector has a positive
+      shape, nesting of _data equal to the shape, unique field names, one unit per field, every
+      populated cell is a live 2-D array with exactly one column per field; metadata dicts of
+      distinct vectors are distinct objects. *)
+Theorem C11_vec_inv_reachable :
+  forall ops : list op,
+    let s := run ops init in
+    Forall (fun c : cell => Forall (fun r => length r = ncols c) (rows c)) (heap s) /\
+    Forall (fun v : vec =>
+              Forall (fun n => 0 < n) (vshape v) /\
+              shaped (vshape v) (vdata v) /\
+              NoDup (vfields v) /\
+              length (vunits v) = length (vfields v) /\
+              Forall (fun lf : leaf =>
+                        match lf with
+                        | None => True
+                        | Some id => exists c, nth_error (heap s) id = Some c /\ ncols c = length (vfields v)
+                        end) (leaves (vdata v)) /\
+              vmeta v < nmeta s) (vecs s) /\
+    NoDup (map vmeta (vecs s)).
 Proof. exact vec_inv_reachable. Qed.
 Print Assumptions C11_vec_inv_reachable.
+
+(* ------------------------------------------------------------------------------------------
+   2. After any history, for every live vector and every field: _FieldView.flatten() is the
+      concatenation, over all addresses in row-major (np.ndindex) order, of that column of the
+      cell at the address; Vector.flatten() is the same concatenation of whole rows and every
+      row has one entry per field.  Neither changes the state. *)
+Theorem C11_flatten_is_rowmajor_concat :
+  forall ops vi v name k,
+    let s := run ops init in
+    nth_error (vecs s) vi = Some v -> index_of name (vfields v) = Some k ->
+    step s (OFieldFlatten vi name) =
+      (s, RCol (flat_map (cell_col k (heap s)) (map (tget (vdata v)) (ndindex (vshape v))))) /\
+    step s (OFlatten vi) =
+      (s, RFlat (length (vfields v)) (flat_map (cell_rows (heap s)) (map (tget (vdata v)) (ndindex (vshape v))))) /\
+    Forall (fun r => length r = length (vfields v))
+           (flat_map (cell_rows (heap s)) (map (tget (vdata v)) (ndindex (vshape v)))).
+Proof. exact flatten_is_rowmajor_concat_hist. Qed.
+Print Assumptions C11_flatten_is_rowmajor_concat.
+
+(* ------------------------------------------------------------------------------------------
+   3. Writing a field's flattened view back restores the same data: in EVERY state (reachable
+      or not), set_flattened(flatten()) succeeds and leaves the whole state unchanged. *)
+Theorem C11_set_flattened_flatten_id :
+  forall s vi v name k,
+    nth_error (vecs s) vi = Some v -> index_of name (vfields v) = Some k ->
+    exists xs, step s (OFieldFlatten vi name) = (s, RCol xs) /\
+               step s (OSetFlattened vi name (Some xs)) = (s, RNone).
+Proof. exact set_flattened_flatten_id. Qed.
+Print Assumptions C11_set_flattened_flatten_id.
+
+(* ------------------------------------------------------------------------------------------
+   4. Set then get.  (a) a successful single-cell assignment v[idx] = <new array c> is read back by
+      v[idx] as that very array object, holding c;  (b) a successful multi-cell set_data with one
+      new array per addressed cell (distinct addresses) is read back by get_data with the same
+      index expression as exactly those array objects, in order — for any number of dimensions. *)
+Theorem C11_set_then_get :
+  forall s vi idx c s',
+    step s (OSetItem vi idx (SArr (ANew c))) = (s', RNone) ->
+    step s' (OGetItem vi idx) = (s', RCell (Some (length (heap s)))) /\
+    nth_error (heap s') (length (heap s)) = Some c.
+Proof. exact set_then_get. Qed.
+Print Assumptions C11_set_then_get.
+
+Theorem C11_set_data_then_get_data :
+  forall s vi v idx idxs cs s',
+    nth_error (vecs s) vi = Some v ->
+    resolve_checked (vshape v) idx = inr idxs ->
+    forallb (fun l => length l =? 1) idxs = false ->
+    NoDup (cart idxs) ->
+    forallb wf_cellb cs = true ->
+    step s (OSetData vi (SList (map ANew cs)) idx) = (s', RNone) ->
+    step s' (OGetData vi idx) = (s', RCells (map Some (seq (length (heap s)) (length cs)))) /\
+    length cs = length (cart idxs) /\ heap s' = heap s ++ cs.
+Proof. exact set_data_then_get_data. Qed.
+Print Assumptions C11_set_data_then_get_data.
+
+(* ------------------------------------------------------------------------------------------
+   5. Copies share no mutable state.  After any history, a successful copy() appends a vector w
+      with the same shape / fields / units and equal cell contents, whose arrays are all new
+      (reach w is disjoint from the reach of every vector that existed) and whose metadata dict
+      is a new object; and nothing done in place through the copy (field arithmetic,
+      set_flattened) changes any array of a vector that existed before. *)
+Theorem C11_copy_disjoint :
+  forall ops vi s',
+    let s := run ops init in
+    step s (OCopy vi) = (s', RNew) ->
+    exists v w l,
+      nth_error (vecs s) vi = Some v /\ vecs s' = vecs s ++ [w] /\ heap s' = heap s ++ l /\
+      vshape w = vshape v /\ vfields w = vfields v /\ vunits w = vunits v /\
+      map (leaf_val (heap s')) (leaves (vdata w)) = map (leaf_val (heap s)) (leaves (vdata v)) /\
+      (forall u id, In u (vecs s) -> In id (reach u) -> ~ In id (reach w)) /\
+      (forall u, In u (vecs s) -> vmeta w <> vmeta u).
+Proof. exact copy_disjoint_hist. Qed.
+Print Assumptions C11_copy_disjoint.
+
+Theorem C11_copy_independent :
+  forall ops vi s',
+    let s := run ops init in
+    step s (OCopy vi) = (s', RNew) ->
+    forall u id, In u (vecs s) -> In id (reach u) ->
+      (forall name a,
+          nth_error (heap (fst (step s' (OFieldOp (length (vecs s)) name a)))) id = nth_error (heap s) id) /\
+      (forall name vals,
+          nth_error (heap (fst (step s' (OSetFlattened (length (vecs s)) name vals)))) id = nth_error (heap s) id).
+Proof. exact copy_independent_hist. Qed.
+Print Assumptions C11_copy_independent.
+
+(* ------------------------------------------------------------------------------------------
+   6. Independently created vectors share no mutable state (after any history): from_shape
+      yields a vector with no arrays and a new metadata dict, the heap is untouched; from_data
+      given arrays of its own yields a vector that reaches none of the arrays of the vectors that
+      existed, with a new metadata dict. *)
+Theorem C11_fresh_disjoint_from_shape :
+  forall ops shape nf fields units s',
+    let s := run ops init in
+    step s (OFromShape shape nf fields units) = (s', RNew) ->
+    exists w, vecs s' = vecs s ++ [w] /\ heap s' = heap s /\ reach w = [] /\
+              (forall u, In u (vecs s) -> vmeta w <> vmeta u).
+Proof. exact fresh_disjoint_from_shape_hist. Qed.
+Print Assumptions C11_fresh_disjoint_from_shape.
+
+Theorem C11_fresh_disjoint_from_data :
+  forall ops items nf fields units s',
+    let s := run ops init in
+    Forall (fun a => exists c, a = ANew c) items ->
+    step s (OFromData (Some items) nf fields units) = (s', RNew) ->
+    exists w l, vecs s' = vecs s ++ [w] /\ heap s' = heap s ++ l /\
+      (forall u id, In u (vecs s) -> In id (reach u) -> ~ In id (reach w)) /\
+      (forall u, In u (vecs s) -> vmeta w <> vmeta u).
+Proof. exact fresh_disjoint_from_data_hist. Qed.
+Print Assumptions C11_fresh_disjoint_from_data.
+
+(* ------------------------------------------------------------------------------------------
+   7. Slicing returns the addressed cells for EVERY number of fixed dimensions (the theorem does
+      not restrict `length (vshape v)`; 1, 2 and 3 are the instances exercised below).
+      (a) whenever v[idx] yields a Vector w, then with idxs = the per-axis index lists that idx
+          denotes (missing trailing axes = full slices, Python wrap-around of negative indices),
+          w has shape (len idxs[0], ...), the fields and units of v, no new arrays, and cell o of w
+          IS (same array object / same unset state) cell (idxs[0][o0], idxs[1][o1], ...) of v;
+      (b) v[idx] does yield a Vector whenever idx (not a full tuple of integers, at most one entry
+          per dimension) denotes in-range, non-empty index lists;
+      (c) get_data with a slice / list on some axis returns exactly the addressed cells in
+          np.ndindex order. *)
+Theorem C11_slice_addresses_cells :
+  forall ops vi v idx s',
+    let s := run ops init in
+    nth_error (vecs s) vi = Some v -> step s (OGetItem vi idx) = (s', RNew) ->
+    exists raw idxs w,
+      resolve_raw (vshape v) (idx ++ repeat (ISlice None None None) (length (vshape v) - length idx)) = Some raw /\
+      resolve_take (vshape v) raw = inr idxs /\
+      vecs s' = vecs s ++ [w] /\ heap s' = heap s /\
+      vshape w = map (@length nat) idxs /\ vfields w = vfields v /\ vunits w = vunits v /\
+      forall o, Forall2 (fun k js => k < length js) o idxs ->
+        exists lf, tget (vdata w) o = Some lf /\ tget (vdata v) (src_of idxs o) = Some lf.
+Proof. exact slice_addresses_cells_hist. Qed.
+Print Assumptions C11_slice_addresses_cells.
+
+Theorem C11_slice_succeeds :
+  forall ops vi v idx raw idxs,
+    let s := run ops init in
+    nth_error (vecs s) vi = Some v ->
+    length idx <= length (vshape v) ->
+    (length idx =? length (vshape v)) && forallb is_int idx = false ->
+    resolve_raw (vshape v) (idx ++ repeat (ISlice None None None) (length (vshape v) - length idx)) = Some raw ->
+    resolve_take (vshape v) raw = inr idxs ->
+    exists s', step s (OGetItem vi idx) = (s', RNew).
+Proof. exact slice_succeeds_hist. Qed.
+Print Assumptions C11_slice_succeeds.
+
+Theorem C11_get_data_addresses_cells :
+  forall ops vi v idx idxs,
+    let s := run ops init in
+    nth_error (vecs s) vi = Some v -> length idx = length (vshape v) ->
+    resolve_checked (vshape v) idx = inr idxs ->
+    forallb (fun l => length l =? 1) idxs = false ->
+    exists ls, step s (OGetData vi idx) = (s, RCells ls) /\ map Some ls = map (tget (vdata v)) (cart idxs).
+Proof. exact get_data_addresses_cells_hist. Qed.
+Print Assumptions C11_get_data_addresses_cells.
+
+(* ------------------------------------------------------------------------------------------
+   Non-vacuity: concrete histories on which the hypotheses of the theorems above hold (and on
+   which the defects of the unrepaired code showed). *)
+Definition q1 (n : Z) : Q := Qmake n 1.
+Definition c1 (x : Z) : cell := mkCell 1 [[q1 x]].
+Definition c2 (x y : Z) : cell := mkCell 2 [[q1 x; q1 y]].
+
+(* a 1-D vector (3,) with two fields, fully populated; a 3-D vector (2,2,2) with one field,
+   populated except cell (0,0,0); a 2-D one (2,2) *)
+Definition ex_ops : list op :=
+  [ OFromShape [3]%Z (Some 2%Z) None None;
+    OSetItem 0 [IInt 0] (SArr (ANew (c2 0 1)));
+    OSetItem 0 [IInt 1] (SArr (ANew (mkCell 2 [[q1 2; q1 3]; [q1 4; q1 5]])));
+    OSetItem 0 [IInt 2] (SArr (ANew (mkCell 2 [])));
+    OFromShape [2; 2; 2]%Z None (Some [7; 8]%Z) (Some [1; 2]%Z);
+    ORemoveFields 1 [8%Z];
+    OSetItem 1 [IInt 0; IInt 0; IInt 1] (SArr (ANew (c1 1)));
+    OSetItem 1 [IInt 0; IInt 1; IInt 0] (SArr (ANew (c1 10)));
+    OSetItem 1 [IInt 0; IInt 1; IInt 1] (SArr (ANew (c1 11)));
+    OSetItem 1 [IInt 1; IInt 0; IInt 0] (SArr (ANew (c1 100)));
+    OSetItem 1 [IInt 1; IInt 0; IInt 1] (SArr (ANew (c1 101)));
+    OSetItem 1 [IInt 1; IInt 1; IInt 0] (SArr (ANew (c1 110)));
+    OSetItem 1 [IInt 1; IInt 1; IInt 1] (SArr (ANew (c1 111)));
+    OFromShape [2; 2]%Z (Some 1%Z) None None ].
+
+Example C11_nonvacuous_state :
+  map vshape (vecs (run ex_ops init)) = [[3]; [2; 2; 2]; [2; 2]] /\ length (heap (run ex_ops init)) = 10.
+Proof. vm_compute. split; reflexivity. Qed.
+
+(* flatten on the 1-D vector: field_1 is the row-major concatenation 1, 3, 5 *)
+Example C11_nonvacuous_flatten :
+  exists v, nth_error (vecs (run ex_ops init)) 0 = Some v /\ index_of 1%Z (vfields v) = Some 1 /\
+            step (run ex_ops init) (OFieldFlatten 0 1%Z) = (run ex_ops init, RCol [q1 1; q1 3; q1 5]).
+Proof. eexists. vm_compute. repeat split; reflexivity. Qed.
+
+(* set then get on the 3-D vector's unset cell *)
+Example C11_nonvacuous_set_then_get :
+  exists s', step (run ex_ops init) (OSetItem 1 [IInt 0; IInt 0; IInt (-2)] (SArr (ANew (c1 5)))) = (s', RNone).
+Proof. eexists. vm_compute. reflexivity. Qed.
+
+(* multi-cell set_data on the 2-D vector with the slice on the SECOND axis (the case the unrepaired
+   set_data got wrong), distinct addresses *)
+Example C11_nonvacuous_set_data_then_get_data :
+  exists v idxs s',
+    nth_error (vecs (run ex_ops init)) 2 = Some v /\
+    resolve_checked (vshape v) [IInt 1; ISlice (Some 0%Z) (Some 2%Z) None] = inr idxs /\
+    forallb (fun l => length l =? 1) idxs = false /\ NoDup (cart idxs) /\
+    step (run ex_ops init) (OSetData 2 (SList (map ANew [c1 1; c1 2])) [IInt 1; ISlice (Some 0%Z) (Some 2%Z) None])
+      = (s', RNone).
+Proof.
+  eexists. exists [[1]; [0; 1]]. eexists. vm_compute. repeat split; try reflexivity.
+  repeat constructor; simpl; intuition discriminate.
+Qed.
+
+(* copy of the 3-D vector succeeds; from_shape / from_data succeed *)
+Example C11_nonvacuous_copy : exists s', step (run ex_ops init) (OCopy 1) = (s', RNew).
+Proof. eexists. vm_compute. reflexivity. Qed.
+
+Example C11_nonvacuous_fresh :
+  (exists s', step (run ex_ops init) (OFromShape [2; 1; 3]%Z (Some 2%Z) None None) = (s', RNew)) /\
+  (exists s', step (run ex_ops init) (OFromData (Some [ANew (c2 1 2); ANew (mkCell 2 [])]) None None None) = (s', RNew)).
+Proof. split; eexists; vm_compute; reflexivity. Qed.
+
+(* slicing with 1, 2 and 3 fixed dimensions: v[0:2] (1-D), v[1, 0:2, 1] and v[::-1, [1], :] (3-D),
+   v[:, 1] (2-D); each yields a Vector, so hypotheses of 7(a) hold and 7(b) applies *)
+Example C11_nonvacuous_slice_1d :
+  exists s', step (run ex_ops init) (OGetItem 0 [ISlice (Some 0%Z) (Some 2%Z) None]) = (s', RNew) /\
+             option_map vdata (nth_error (vecs s') 3) = Some (Node [Leaf (Some 0); Leaf (Some 1)]).
+Proof. eexists. vm_compute. split; reflexivity. Qed.
+
+Example C11_nonvacuous_slice_2d :
+  exists s', step (run ex_ops init) (OGetItem 2 [ISlice None None None; IInt 1]) = (s', RNew) /\
+             option_map vshape (nth_error (vecs s') 3) = Some [2; 1].
+Proof. eexists. vm_compute. split; reflexivity. Qed.
+
+Example C11_nonvacuous_slice_3d :
+  exists s', step (run ex_ops init) (OGetItem 1 [IInt 1; ISlice (Some 0%Z) (Some 2%Z) None; IInt 1]) = (s', RNew) /\
+             option_map vshape (nth_error (vecs s') 3) = Some [1; 2; 1] /\
+             option_map (fun w => map (leaf_val (heap s')) (leaves (vdata w))) (nth_error (vecs s') 3)
+               = Some [Some (c1 101); Some (c1 111)].
+Proof. eexists. vm_compute. repeat split; reflexivity. Qed.
+
+Example C11_nonvacuous_slice_3d_partial :
+  exists s', step (run ex_ops init) (OGetItem 1 [ISlice None None (Some (-1)%Z); IList [1%Z]]) = (s', RNew) /\
+             option_map vshape (nth_error (vecs s') 3) = Some [2; 1; 2].
+Proof. eexists. vm_compute. split; reflexivity. Qed.
+
+Example C11_nonvacuous_get_data_3d :
+  exists ls, step (run ex_ops init) (OGetData 1 [IInt 0; ISlice None None None; IList [1; 0]%Z])
+             = (run ex_ops init, RCells ls) /\ length ls = 4.
+Proof. eexists. vm_compute. split; reflexivity. Qed.
